@@ -262,7 +262,9 @@ register("C02",
                    n_quick=120, n_thorough=1000),
           # several injectors of one package whose designated sources are values of one type (differing only inside
           # literal braces, or only in the package that wrote them): each gets the value of its own source
-          lambda rep, tier: __import__("vlib.c13tier", fromlist=["x"]).run_pairs(rep, tier)])
+          lambda rep, tier: __import__("vlib.c13tier", fromlist=["x"]).run_pairs(rep, tier),
+          # the designated source changes in a package two imports away between two runs of gen
+          lambda rep, tier: __import__("vlib.c02tier", fromlist=["x"]).run_rewire(rep, tier)])
 register("C11",
          "unit tier: random programs containing interface bindings (non-trivial); e2e tier: value/pointer receivers, "
          "bindings to providers / struct providers / values / arguments / fields, consumers of I and of C; "
@@ -521,6 +523,12 @@ def _c13_part(rep, tier):
     return c13tier.run_c13(rep, tier)
 
 
+def _c13_ivalues(rep, tier):
+    # wire.InterfaceValue: interface values that do not implement the interface are rejected (static method sets)
+    from . import c11tier
+    return c11tier.run_c11(rep, tier, only="ivalue")
+
+
 def _c13_pairs(rep, tier):
     from . import c13tier
     return c13tier.run_pairs(rep, tier)
@@ -536,7 +544,7 @@ register("C13",
          "random nested expressions with the unsafe part at any position; a package with several injectors whose value "
          "expressions have one type and differ only inside literal braces / only in the package they were written in: every "
          "injector must return the value of its own expression; non-trivial = each type-correct (expression, place) pair",
-         [_c13_part, _c13_pairs])
+         [_c13_part, _c13_pairs, _c13_ivalues])
 
 
 def _c15_part(rep, tier):
